@@ -13,6 +13,7 @@ import (
 	"sync"
 
 	"istio.io/istio/pilot/pkg/model"
+	"istio.io/istio/pkg/cluster"
 	"istio.io/istio/pkg/config/schema/kind"
 	"istio.io/istio/pkg/network"
 	"istio.io/istio/pkg/util/sets"
@@ -328,7 +329,11 @@ func mutate(r *wire.Rng, prev []*model.IstioEndpoint) []*model.IstioEndpoint {
 		n = 2
 	}
 	for i := 0; i < n; i++ {
-		switch r.Intn(14) {
+		c := r.Intn(19)
+		if c >= 14 {
+			c = 9 // single-attribute changes are the most frequent step
+		}
+		switch c {
 		case 0, 1, 12, 13: // identical report
 		case 2: // health flip
 			if len(out) > 0 {
@@ -369,10 +374,10 @@ func mutate(r *wire.Rng, prev []*model.IstioEndpoint) []*model.IstioEndpoint {
 					out = append([]*model.IstioEndpoint{d}, out...)
 				}
 			}
-		case 9: // attribute change that Equals sees
+		case 9: // one non-key attribute changes: every field IstioEndpoint.Equals compares has its turn
 			if len(out) > 0 {
 				e := out[r.Intn(len(out))]
-				switch r.Intn(5) {
+				switch r.Intn(13) {
 				case 0:
 					e.LbWeight++
 				case 1:
@@ -387,6 +392,22 @@ func mutate(r *wire.Rng, prev []*model.IstioEndpoint) []*model.IstioEndpoint {
 					}
 				case 4:
 					e.Network = network.ID(wire.Pick(r, []string{"", "n1", "n2"}))
+				case 5:
+					e.EndpointPort = uint32(wire.Pick(r, []int{8080, 9090, 7070}))
+				case 6:
+					e.TLSMode = wire.Pick(r, []string{"istio", "disabled", ""})
+				case 7:
+					e.NodeName = wire.Pick(r, []string{"", "node1", "node2", "node3"})
+				case 8:
+					e.HostName = wire.Pick(r, []string{"", "h1", "h2"})
+				case 9:
+					e.SubDomain = wire.Pick(r, []string{"", "sub", "sub2"})
+				case 10:
+					e.Locality.ClusterID = cluster.ID(wire.Pick(r, []string{"c1", "c2", ""}))
+				case 11:
+					e.LegacyClusterPortKey = wire.Pick(r, []int{0, 80, 81})
+				case 12:
+					e.DiscoverabilityPolicy = wire.Pick(r, []model.EndpointDiscoverabilityPolicy{nil, model.AlwaysDiscoverable, model.DiscoverableFromSameCluster})
 				}
 			}
 		case 10: // second address changes only (key stays)
@@ -540,6 +561,19 @@ func snapshotIndex(idx *model.EndpointIndex) (map[pair]map[pair][]string, map[pa
 	return got, sas
 }
 
+// sameAttributes: every attribute of the two endpoints is the same (further addresses in any order).
+// Written against the data, not against IstioEndpoint.Equals.
+func sameAttributes(a, b *model.IstioEndpoint) bool {
+	canon := func(e *model.IstioEndpoint) string {
+		c := e.DeepCopy()
+		if len(c.Addresses) > 1 {
+			sort.Strings(c.Addresses[1:])
+		}
+		return encEp(c)
+	}
+	return canon(a) == canon(b)
+}
+
 func oracleIndex(in, outp string) {
 	out := wire.Create(outp)
 	defer out.Close()
@@ -686,7 +720,7 @@ func oracleIndex(in, outp string) {
 				for _, oe := range prev {
 					found := false
 					for _, ne := range o.eps {
-						if ne.Key() == oe.Key() && oe.Equals(ne) {
+						if ne.Key() == oe.Key() && sameAttributes(oe, ne) {
 							found = true
 						}
 					}
